@@ -1,9 +1,13 @@
-/- Dispatch table of the hand-written models (tie B).  Core Lean only. -/
+/- Dispatch table of the hand-written models (tie B).  Core Lean only.
+   Every model file exports `ops : String → Json → Option (Except String Json)` (none = not my op). -/
 import GSV.Proto
 open Lean GSV GSV.Proto
 namespace GSV.Model
 
+def modelOps : List (String → Json → Option (Except String Json)) := [
+]
+
 def modelOp (op : String) (j : Json) : Option (Except String Json) :=
-  none
+  modelOps.findSome? fun f => f op j
 
 end GSV.Model
